@@ -10,6 +10,7 @@ import gen
 from common import Outcome, np, rng_for
 
 LEVEL = "proof"
+SHRINK_KEYS = ("stream",)
 EXPLANATION = ("Theorems (Lean): variance merge/insert/delete identities, row bounds, width bookkeeping, drift iff data dropped. This run "
                "recomputes the window brute-force from the stream history after every update of the real detector (width/total/variance, "
                "bucket blocks, row bounds), checks every shrink against the bound, and ties the model to /repo.")
